@@ -549,6 +549,7 @@ pub fn new_recorder() -> Rec {
         fired: Vec::new(),
         closures_record: true,
         enabled: false,
+        over_budget: false,
     }))
 }
 
@@ -560,6 +561,7 @@ fn arm(rec: Option<&Rec>, faults: &[usize]) {
     let mut r = rec.lock().unwrap();
     r.log.clear();
     r.fired.clear();
+    r.over_budget = false;
     r.faults = faults.to_vec();
     r.enabled = true;
 }
@@ -1288,6 +1290,7 @@ fn gen_program(
         vars: model.vars.iter().map(|(n, v)| (n.clone(), v.clone())).collect(),
         fns: vec![],
         builtins_disabled: model.disabled,
+        aging: 0,
     };
     let tuple_of_assignments = statement && rng.percent(6);
     let mut g = Gen::new(rng, gcfg, &setup);
